@@ -247,6 +247,9 @@ class GenCfg:
     template_comments: bool = False
     weird_paths: bool = True  # bracketed roots, nested [x] roots, quoted segments
     loops_stateful: bool = True  # offset: continue, cycle, ifchanged, increment
+    weird_idents: bool = False  # names bound by assign / capture written in bracket notation (['a b'], ['true'], ["w"])
+    wide_floats: bool = False  # float literals whose Python repr uses exponent notation
+    orphan_interrupts: float = 0.0  # probability of allowing break / continue outside any loop of the same template
     string_lits: list[str] = field(default_factory=lambda: ["", "a", "b", "ab", "x y", "k", "title", "1", "2", ","])
 
 
@@ -293,6 +296,8 @@ class Gen:
                 return self.ch(["1.5", "0.5", "-2.0", "3.0"])
             return str(self.ch([0, 1, 2, 3, -1, 5, 10, -2]))
         if kind == "f":
+            if self.cfg.wide_floats and self.p(0.25):
+                return self.ch(["100000000000000000000.0", "0.00001", "-0.000001", "123456789012345678.0", "0.0001", "10000000000000000.0"])
             return self.ch(["1.5", "0.5", "-2.25", "3.0"])
         if kind == "b":
             return self.ch(["true", "false"])
@@ -342,7 +347,7 @@ class Gen:
             return root + self.ch(["", "", ".k", ".title", "[0]", "[1]", ".size"])
         if root in STR_VARS:
             return root + self.ch(["", "", ".size", ".first", "[0]"])
-        if self.cfg.weird_paths and self.p(0.15):
+        if self.cfg.weird_paths and not root.startswith("[") and self.p(0.15):
             w = self.ch([f'["{root}"]', f"['{root}']", f"[ '{root}' ]", "['true']", "['empty']", "['nil']", "['blank']"])
             return w
         if self.cfg.weird_paths and self.p(0.03):
@@ -477,6 +482,8 @@ class Gen:
 
     def new_name(self) -> str:
         name = self.ch(["v", "w", "s", "n", "xs", "acc", "t"])
+        if self.cfg.weird_idents and self.p(0.15):
+            return self.ch(["['a b']", '["w"]', "['true']", "['v-1']", "['it''s']".replace("''", ""), "['é']", "['2024']", "['if']", '["x y"]'])
         return name
 
     def node(self, depth: int) -> list:
@@ -503,7 +510,7 @@ class Gen:
                 continue
             if k == "tcomment" and not self.cfg.template_comments:
                 continue
-            if k in ("break", "continue") and not self.loop_vars:
+            if k in ("break", "continue") and not self.loop_vars and not (self.cfg.orphan_interrupts and self.rng.random() < self.cfg.orphan_interrupts):
                 continue
             if k == "call" and not (self.cfg.extra and self.macros):
                 continue
@@ -621,6 +628,13 @@ class Gen:
                 parts.append(["when", vals, self.body(d, 0, 2)])
             if self.p(0.5):
                 parts.append(["else", "", self.body(d, 0, 2)])
+                if self.p(0.3):
+                    # when / else blocks in any order, more than one else: each block keeps its place
+                    for _ in range(self.rng.randint(1, 2)):
+                        if self.p(0.6):
+                            parts.append(["when", self.primitive(self.ch(["i", "s"])), self.body(d, 0, 2)])
+                        else:
+                            parts.append(["else", "", self.body(d, 0, 2)])
             return ["block", "case", self.primitive(self.ch(["i", "s", "any"])), parts]
         if k in ("for", "tablerow"):
             var = self.ch(["i", "x", "item", "o"])
